@@ -223,6 +223,30 @@ pub fn r8_metadata_family() -> ListSpace {
     ListSpace { name: "MS-M R8 metadata comments".into(), note: "a 6-line mapping (inline pair, third range, second class) with one of 32 R8 metadata comments (rewriteFrame with 3 thrown types x 9 counts, synthesized, outline, outlineCallsite, residualsignature, mapping version) at every position, at column 0 and indented by 4 / 6 blanks".into(), files, wide: false, chunk: Default::default() }
 }
 
+/// MS-H2 far-apart repeats: two entries of one obfuscated method that share their original name, with more distinct
+/// strings (> 65536) and - in the second file - more entries (> 65536) between them than any plausible bound on an
+/// interning / de-duplication table or a 16-bit index; the same original name again in a second class
+pub fn far_apart_family(both: bool) -> ListSpace {
+    let mut files: Vec<(Vec<Line>, Term)> = Vec::new();
+    for (fillers, with_args) in [(23000usize, true), (66000usize, false)] {
+        if !both && !with_args {
+            continue;
+        }
+        let mut f = Vec::with_capacity(fillers + 8);
+        f.push(class("o.Far", "f"));
+        f.push(method(None, None, "create", "", Orig::None, "c"));
+        for i in 0..fillers {
+            f.push(method(None, None, leak(&format!("orig{}", i)), if with_args { leak(&format!("a.T{}", i)) } else { "" }, Orig::None, leak(&format!("m{}", i))));
+        }
+        f.push(method(None, None, "create", "int", Orig::None, "c"));
+        f.push(method(Some((1, 2)), None, "create", "long", Orig::SE(5, 6), "c"));
+        f.push(class("o.Far2", "g"));
+        f.push(method(None, None, "create", "", Orig::None, "c"));
+        files.push((f, Term::Lf));
+    }
+    ListSpace { name: "MS-H2 far-apart repeats".into(), note: "one class in which two entries of one obfuscated method share their original name with 23000 filler methods (69000 distinct strings) between them; optionally the same with 66000 fillers (more than 2^16 entries)".into(), files, wide: false, chunk: Default::default() }
+}
+
 /// one character per UTF-8 lead-byte class, all 64 continuation bytes (U+0100..U+013F = C4 80 .. C4 BF), and ASCII punctuation
 pub fn special_chars() -> Vec<char> {
     let mut v: Vec<char> = Vec::new();
